@@ -4,7 +4,7 @@ import collections, json, os, random
 from .. import terms, vmfam, vmreplay, vmtrace
 from ..tlaparse import iter_dump, to_json
 
-QUICK_FAMILIES = ['stack', 'dipstack', 'adt', 'optlist', 'control', 'text', 'logic', 'arith', 'env', 'hash', 'collget', 'bigmap', 'bigset', 'dipops']
+QUICK_FAMILIES = ['stack', 'dipstack', 'adt', 'optlist', 'control', 'text', 'logic', 'arith', 'env', 'hash', 'collget', 'bigmap', 'bigset', 'dipops', 'parts']
 REPO_TESTS = ['tests/unit_tests/test_michelson/test_repl/test_opcodes.py', 'tests/unit_tests/test_michelson/test_repl/test_macros.py',
               'tests/unit_tests/test_michelson/test_repl/test_lambda.py', 'tests/unit_tests/test_michelson/test_repl/test_execution.py']
 
@@ -201,7 +201,7 @@ META = {
     'category': 'model_checking',
     'text': ('MichSem.tla is a reference semantics of the Michelson core (static typing Ty + big-step Run over typed slots, ~95 instruction forms); VM.tla turns it '
              'into a state machine whose behaviours are exactly the well-typed programs of an instruction family. TLC enumerates every program up to the '
-             'depth bound for 14 families (stack, stack under DIP, adt, option/list, control/lambda, text, logic, arithmetic, environment, hashing, map lookups, maps and sets of 9-20 entries, value instructions under DIP n), checking type preservation '
+             'depth bound for 15 families (stack, stack under DIP, adt, option/list, control/lambda, text, logic, arithmetic, environment, hashing, map lookups, maps and sets of 9-20 entries, value instructions under DIP n, parts of values captured by closures), checking type preservation '
              'of the reference itself; every reachable state is replayed in pytezos and the full stack or failure compared; and every instruction event the '
              'interpreter executes during the repository\'s own opcode/macro/lambda/scenario tests (recorded by the PYTEZOS_VERIF_TRACE hook) is validated by TLC '
              'against the same semantics.'),
